@@ -214,7 +214,7 @@ macro_rules! list_range_harness {
         #[kani::proof]
         #[kani::unwind(5)]
         #[kani::stub(alloc::fmt::format, fmt_stub)]
-        #[kani::stub(<SourcedValue as Clone>::clone, sourced_value_clone_stub)]
+        #[kani::stub(<crate::eval::value::SourcedValue as core::clone::Clone>::clone, sourced_value_clone_stub)]
         fn $name() {
             list_range_contract($n);
         }
